@@ -15,10 +15,18 @@ import random
 from harness import coqfmt as cf
 
 PROP = "C14"
-COQ = dict(imports=["Spec.C14"], in_ty="c14_case", out_ty="c14_obs", corr="corr_C14", decide="check_C14")
+COQ = dict(imports=["Spec.C14"], in_ty="c14_case", out_ty="c14_obs", corr="corr_C14", decide="check_C14", model="model_C14",
+           # wire format only: named constants for the ASCII code points parse ~3x faster than numerals
+           preamble="\n".join("Definition c%d : N := %d." % (k, k) for k in range(128)))
+
+
+def enc(s):
+    """a string as a Coq list of code points"""
+    return "[" + "; ".join(("c%d" % ord(ch)) if ord(ch) < 128 else str(ord(ch)) for ch in s) + "]"
+
 THEOREMS = ["C14_quote_lex_roundtrip", "C14_strlit_roundtrip", "C14_format_table_roundtrip", "C14_strip_lex",
             "C14_decider_sound", "C14_visitor_sound", "C14_wf_table", "C14_main", "C14_main_cases", "C14_emits",
-            "C14_every_piece_reads_back", "C14_schema_qualifies_every_table", "C14_corr_transfers",
+            "C14_every_piece_reads_back", "C14_schema_qualifies_every_table", "C14_inner_sql_sound", "C14_corr_transfers",
             "C14_refuted_percent", "C14_refuted_tab", "C14_refuted_trailing_newline",
             "C14_old_oracle_comment_rejected", "C14_old_mssql_literal_rejected"]
 TRUSTED = [
@@ -36,7 +44,9 @@ TRUSTED = [
     "Python str.isspace()/str.strip(), str.split('.'), str.replace are modelled (space set compared exhaustively per run)",
 ]
 ASSUME = [
-    "names are plain str (no quoted_name with a forced quote flag), non-empty, and each dotted schema part is non-empty",
+    "names are plain str (no quoted_name with a forced quote flag; the column of the mssql _ExecDrop*Constraint constructs "
+    "given as str, not as a table-bound Column object - see finding C14-mssql-drop-constraint-bound-column), non-empty, "
+    "and each dotted schema part is non-empty",
     "theorem class env_ok: no name contains '%' on postgresql/mysql, a tab, or ends in a newline (the three classes are "
     "refuted by C14_refuted_* and reported as findings); outside the class the exact comparison and the decider still run",
     "constructs compiled entirely by SQLAlchemy (CreateTable, CreateIndex, AddConstraint, DropConstraint incl. alembic's "
@@ -256,12 +266,15 @@ def run_stmt(h):
         c.impl._exec(el)
         offline = buf.getvalue()
         out = {"compiled": compiled, "offline": offline}
-        cout = "ObsStmt (OutSql %s %s)" % (cf.string(compiled), cf.string(offline))
+        k = 0
+        while k < len(compiled) and k < len(offline) and compiled[k] == offline[k]:
+            k += 1
+        cout = "ObsStmt (out_sql_pre %s %d%%nat %s)" % (enc(compiled), k, enc(offline[k:]))
     except Exception as e:  # raised by alembic / SQLAlchemy: part of the observable, by class
         out = {"err": errname(e), "exc": type(e).__name__}
         cout = "ObsStmt (OutErr %s)" % out["err"]
-    env = "(mkEnv %s %s %s %s %s %s)" % (cf.opt(h["schema"], cf.string), cf.string(h["table"]), cf.string(h["newtable"]),
-                                       cf.string(h["column"]), cf.string(h["newcolumn"]), cf.lst(cf.string(o) for o in opq))
+    env = "(mkEnv %s %s %s %s %s %s)" % (cf.opt(h["schema"], enc), enc(h["table"]), enc(h["newtable"]),
+                                       enc(h["column"]), enc(h["newcolumn"]), cf.lst(enc(o) for o in opq))
     cin = "CaseStmt %s %s %s" % (COQ_DIALECT[h["dialect"]], coq_construct(h["construct"]), env)
     shape = "stmt-%s-%s-%s" % (h["dialect"], h["construct"][0], "err" if "err" in out else "sql")
     return dict(cin=cin, cout=cout, out=out, nontrivial="err" not in out, shape=shape)
@@ -271,10 +284,10 @@ def run_quote(h):
     c, _, _ = _ctx(h["dialect"])
     try:
         r = c.dialect.identifier_preparer.quote(h["s"])
-        out, cout = {"quoted": r}, "ObsQuote (Some %s)" % cf.string(r)
+        out, cout = {"quoted": r}, "ObsQuote (Some %s)" % enc(r)
     except IndexError:
         out, cout = {"err": "EIndex"}, "ObsQuote None"
-    return dict(cin="CaseQuote %s %s" % (COQ_DIALECT[h["dialect"]], cf.string(h["s"])), cout=cout, out=out,
+    return dict(cin="CaseQuote %s %s" % (COQ_DIALECT[h["dialect"]], enc(h["s"])), cout=cout, out=out,
                 nontrivial="quoted" in out and out["quoted"] != h["s"], shape="quote-" + h["dialect"])
 
 
@@ -305,7 +318,7 @@ def run_params(h):
            "legal": len(legal), "space": len(space)}
     cout = "ObsParams %d %d %s %s %s %s %s %s" % (
         ord(p.initial_quote), ord(p.final_quote), cf.boolean(p._double_percents),
-        cf.lst(cf.string(w) for w in sorted(p.reserved_words)),
+        cf.lst(enc(w) for w in sorted(p.reserved_words)),
         cf.nlist(sorted(ord(x) for x in p.illegal_initial_characters)), ranges(legal), ranges(changing), ranges(space))
     return dict(cin="CaseParams %s" % COQ_DIALECT[h["dialect"]], cout=cout, out=out, nontrivial=True,
                 shape="params-" + h["dialect"])
@@ -371,8 +384,8 @@ def rand_name(rnd, allow):
             continue
         if not allow["tab"] and "\t" in s:
             continue
-        if not allow["nl"] and s.endswith("\n"):
-            continue
+        if not allow["nl"] and any(part.endswith("\n") for part in s.split(".")):
+            continue            # (a name is also used as a dotted schema, whose parts are quoted one by one)
         return s
 
 
@@ -513,6 +526,19 @@ WITNESSES = {
 }
 
 
+def bound_column_witness():
+    """outside the modelled inputs (column given as a table-bound Column object, not a str): _sql_literal(colname) is
+    str(Column) = 'tbl.col', so the col_name(...) comparison literal names the wrong thing"""
+    import sqlalchemy as sa
+    from alembic.ddl import mssql
+    c, _, _ = _ctx("mssql")
+    t = sa.Table("tbl", sa.MetaData(), sa.Column("col", sa.Integer))
+    sql = str(mssql._ExecDropConstraint("tbl", t.c.col, "sys.default_constraints", None).compile(dialect=c.dialect))
+    return {"input": "_ExecDropConstraint('tbl', <Column col bound to Table tbl>, 'sys.default_constraints', None) as built by "
+                     "MSSQLImpl.drop_column(mssql_drop_default=True) for DropColumnOp.from_column_and_tablename / a reversed AddColumnOp",
+            "impl_output": sql, "deviates": "= 'tbl.col'" in sql}
+
+
 def extra_evidence():
     """measured distribution + the three refutation witnesses replayed on the real code"""
     ev = dict(_STATS)
@@ -520,6 +546,45 @@ def extra_evidence():
     for k, h in WITNESSES.items():
         out = run_case(h)["out"]
         wit[FINDING_IDS[k]] = {"input": h, "impl_output": out}
+    wit["C14-mssql-drop-constraint-bound-column"] = bound_column_witness()
     ev["finding_witnesses_on_impl"] = wit
     ev["registered_findings"] = sorted(registered_findings())
     return ev
+
+
+def dump_reserved(path=None):
+    """regenerate coq/Model/C14Reserved.v from the installed SQLAlchemy (run by hand when SQLAlchemy is upgraded;
+    every check run compares the table with the live preparer through the 'params' cases)"""
+    import sqlalchemy
+    lines = ["(* GENERATED from SQLAlchemy %s by harness/props/c14.py:dump_reserved() -- IdentifierPreparer parameters of the five"
+             % sqlalchemy.__version__,
+             "   dialects.  Outside alembic: trusted, and re-checked against the installed SQLAlchemy on every run (kind \"params\"). *)",
+             "From Coq Require Import List NArith String.", "From AV Require Import Model.Quote.", "Import ListNotations.",
+             "Local Open Scope N_scope.", "Local Open Scope string_scope.", ""]
+    for d in DIALECTS:
+        c, _, _ = _ctx(d)
+        rows, cur = [], "  "
+        for w in sorted(c.dialect.identifier_preparer.reserved_words):
+            item = '"%s"; ' % w
+            if len(cur) + len(item) > 110:
+                rows.append(cur.rstrip())
+                cur = "  "
+            cur += item
+        rows.append(cur.rstrip().rstrip(";"))
+        lines.append("Definition reserved_%s : list str := map s2l [\n%s\n]." % (d, "\n".join(rows)))
+        lines.append("")
+    lines.append("""Definition digits_dollar : list N := [36; 48; 49; 50; 51; 52; 53; 54; 55; 56; 57].
+
+Definition qspec_of (d:dialect) : qspec :=
+  match d with
+  | Sqlite     => mkQ 34 34 false reserved_sqlite digits_dollar false
+  | Postgresql => mkQ 34 34 true  reserved_postgresql digits_dollar false
+  | Mysql      => mkQ 96 96 true  reserved_mysql digits_dollar true
+  | Mssql      => mkQ 91 93 false reserved_mssql digits_dollar false
+  | Oracle     => mkQ 34 34 false reserved_oracle (digits_dollar ++ [95]) false
+  end.
+""")
+    txt = "\n".join(lines)
+    if path:
+        open(path, "w").write(txt)
+    return txt
